@@ -6,13 +6,14 @@ Require A1.
 Require Import D3 D4 D5 D6 D7 D8.
 Import ListNotations.
 
-(* for every byte string the parser accepts, the rendering is accepted and parses to the same value -
-   unless the value contains the architecture spelled "--", i.e. the triple ("","","") (known finding) *)
-Theorem C05_dep_roundtrip : forall x d, parse x = Ok d -> blank_arch d = false -> parse (dep_string d) = Ok d.
+(* for EVERY byte string the parser accepts, the rendering is accepted and parses to the same value (since repair
+   "ParseArch rejects a name with an empty component" there is no exception left: the architecture spelled "--",
+   which used to parse to the triple ("","","") and to render as the empty string, is refused) *)
+Theorem C05_dep_roundtrip : forall x d, parse x = Ok d -> parse (dep_string d) = Ok d.
 Proof. exact D8.C05_dep_roundtrip. Qed.
 Print Assumptions C05_dep_roundtrip.
 
-Theorem C05_fixpoint : forall x d, parse x = Ok d -> blank_arch d = false ->
+Theorem C05_fixpoint : forall x d, parse x = Ok d ->
   forall d2, parse (dep_string d) = Ok d2 -> dep_string d2 = dep_string d.
 Proof. exact D8.C05_fixpoint. Qed.
 Print Assumptions C05_fixpoint.
@@ -22,15 +23,15 @@ Theorem C05_parse_total : forall x, parse x <> OutOfFuel.
 Proof. exact C18_dep_terminates. Qed.
 Print Assumptions C05_parse_total.
 
-(* a single architecture name: parse, render, parse gives back the same (abi, os, cpu) *)
-Theorem C05_arch_roundtrip : forall x, ~ A1.zero_arch (A1.parse_arch x) ->
-  A1.parse_arch (A1.arch_string (A1.parse_arch x)) = A1.parse_arch x.
-Proof. exact A1.arch_roundtrip. Qed.
+(* a single architecture name: whatever ParseArch accepts renders to a name that ParseArch accepts and that parses to
+   the same (abi, os, cpu); names with an empty component ("", "-", "linux-", "--") are refused *)
+Theorem C05_arch_roundtrip : forall x a, A1.parse_arch_opt x = Some a -> A1.parse_arch_opt (A1.arch_string a) = Some a.
+Proof. exact A1.arch_opt_roundtrip. Qed.
 Print Assumptions C05_arch_roundtrip.
-
-(* the excluded class is a real exception (KNOWN-FINDING class blank-arch) *)
-Theorem C05_blank_arch_refuted : A1.parse_arch (A1.arch_string (A1.parse_arch (A1.s "--"))) <> A1.parse_arch (A1.s "--").
-Proof. exact A1.blank_arch_refuted. Qed.
+Theorem C05_empty_components_refused : A1.parse_arch_opt (A1.s "--") = None /\ A1.parse_arch_opt (A1.s "linux-") = None /\
+  A1.parse_arch_opt [] = None /\ A1.parse_arch_opt (A1.s "-amd64") = None /\ A1.parse_arch_opt (A1.s "a--b") = None /\
+  A1.parse_arch_opt (A1.s "linux-any") <> None.
+Proof. exact A1.empty_components_rejected. Qed.
 
 Example C05_wildcards_kept :
   A1.arch_string (A1.parse_arch (A1.s "linux-any")) = A1.s "linux-any" /\
@@ -38,5 +39,6 @@ Example C05_wildcards_kept :
   A1.arch_string (A1.parse_arch (A1.s "musl-linux-amd64")) = A1.s "musl-linux-amd64" /\
   ~ A1.zero_arch (A1.parse_arch (A1.s "linux-any")).
 Proof. repeat split; try reflexivity. intros (H&_). discriminate H. Qed.
-Example C05_nonvacuous : exists d, parse (s "foo:any (>= 1.0) [!amd64 !i386] <!a b> <c> | ${x:Y}, bar") = Ok d /\ blank_arch d = false.
-Proof. eexists. split; vm_compute; reflexivity. Qed.
+Example C05_nonvacuous : (exists d, parse (s "foo:any (>= 1.0) [!amd64 !i386] <!a b> <c> | ${x:Y}, bar") = Ok d) /\
+  parse (s "foo [--]") = Err /\ parse (s "foo: (>= 1)") = Err.
+Proof. vm_compute. split; [eexists; reflexivity|split; reflexivity]. Qed.
